@@ -502,7 +502,7 @@ def explain(snaps, s=None, raw=None):
                     c, p = o[1], o[3]
                     ok = res[c] == ("Some", "true")
                     was = prev is not None and prev[c] == ("Some", "true")
-                    if ok and not was and sn[c][3] != ("Some", p) and sn[c][1] != 6:
+                    if ok and not was and sn[c][3] != ("Some", p) and sn[c][1] < 5:
                         return (f"snapshot {k}: spawn_linked of actor {c} under {p} returned Ok but actor {c} is alive "
                                 f"(status rank {sn[c][1]}) with supervisor {sn[c][3]}: an orphan")
             prev = res
@@ -531,7 +531,7 @@ def explain(snaps, s=None, raw=None):
                     seen.append(c)
                     todo += pre[c][2]
                 for c in seen:
-                    if pre[c][1] < 5 and post[c][1] != 6:
+                    if post[c][1] < 5:
                         return (f"window {k}->{k+1}: actor {a} exited; actor {c} was linked beneath it with status rank "
                                 f"{pre[c][1]} and is still alive afterwards (status rank {post[c][1]})")
     return "(see snapshots)"
